@@ -55,8 +55,10 @@ from common import *
 
 PROP = "C15"
 
-CODE = dict(GateInflight=False, ErrMulti=False, BootFault=True)
-REP = dict(GateInflight=True, ErrMulti=True, BootFault=True)
+# variants of the specification: the code as it is / every repair flag on
+# (cfg.gate: the fork gates count forks in flight, cfg.errmulti: ErrWorker is Multi)
+BOTH = '{"code", "repaired"}'
+CODE_ONLY = '{"code"}'
 # formulas every variant has to satisfy / formulas the code variant is predicted to break
 HOLD = ["NoForkAtMax", "PoolReadyHonest", "PoolReadyKept", "KillRequested", "GroupsExclusive"]
 PREDICTED = ["WithinMax", "KillRequestedDelivered"]
@@ -142,90 +144,89 @@ def pool_classes(lo, hi):
 
 def mc_models(tier):
     """Bounded sub-models: which pools, which budgets.  Every one is explored
-    exhaustively (all interleavings) for the code variant and the repaired variant."""
+    exhaustively (all interleavings) for the code variant and the repaired variant.
+    Pools: one representative per class of Min/Max/Warm 0..3 (the specification depends on
+    the settings only through min(Min,Max), Max and min(min(Min,Max)+Warm, Max))."""
     cl = pool_classes(0, 3)
     reps = {k: min(v) for k, v in cl.items()}          # one representative per class
-    allp = sorted(p for v in cl.values() for p in v)
 
-    def pools(pred, full):
-        if full:
-            return sorted(p for k, v in cl.items() if pred(k) for p in v)
+    def pools(pred):
         return sorted(reps[k] for k in cl if pred(k))
 
-    full = tier != "quick"
+    q = tier == "quick"
     base = dict(MaxFail=0, MaxExpire=0, MaxConn=0, MaxErr=0, MaxHb=0, MaxCheck=0, MaxFlip=0,
                 Rounds=2, QueueLimit=2, McErrKill=0)
-    ms = []
-    # A: the bounds.  forks succeed / fail / lose their bootstrap, two rounds, CheckPool
-    for mx in (0, 1, 2, 3):
-        ms.append(dict(base, name="forks-max%d" % mx, MaxForks=min(mx + 2, 4) if tier == "quick" else 4,
-                       MaxFail=1, MaxExpire=1, MaxConn=1, MaxFlip=1,
-                       MaxCheck=0 if tier == "quick" else 1,
-                       pools=pools(lambda k: k[1] == mx, full)))
-    # B: readiness.  workers connect, their replicas flip, die; heartbeats; PoolReady
-    for mx in (1, 2):
-        ms.append(dict(base, name="ready-max%d" % mx, MaxForks=mx, MaxConn=mx, MaxErr=1, MaxHb=1,
-                       MaxFlip=2 if tier == "quick" else 3,
-                       pools=pools(lambda k: k[1] == mx, full)))
-    # C: errors and kills
-    for ek in (0, 1):
-        ms.append(dict(base, name="errors-kill%d" % ek, MaxForks=1 if tier == "quick" else 2,
-                       MaxConn=1 if tier == "quick" else 2, MaxErr=ek + 2, MaxHb=1, MaxFlip=1,
-                       QueueLimit=3, McErrKill=ek,
-                       pools=[110] if tier == "quick" else [110, 120, 220]))
-    return ms, len(allp), len(cl)
+    ms = [
+        # A: the bounds.  forks succeed / fail / lose their bootstrap / connect, two
+        #    NormalizingPool rounds (+ CheckPool in thorough)
+        dict(base, name="forks-max0", MaxForks=2, MaxFail=1, MaxExpire=1, MaxConn=1, MaxFlip=1,
+             MaxCheck=1, pools=pools(lambda k: k[1] == 0)),
+        dict(base, name="forks-max1", MaxForks=3, MaxFail=1, MaxExpire=1, MaxConn=1, MaxFlip=1,
+             MaxCheck=0 if q else 1, pools=pools(lambda k: k[1] == 1)),
+        dict(base, name="forks-max2", MaxForks=3 if q else 4, MaxFail=1, MaxExpire=0 if q else 1,
+             MaxConn=1, MaxFlip=0 if q else 1, pools=pools(lambda k: k[1] == 2)),
+        dict(base, name="forks-max3", MaxForks=4, MaxFail=0 if q else 1, MaxExpire=0,
+             MaxConn=0 if q else 1, pools=pools(lambda k: k[1] == 3)),
+        # B: readiness.  workers connect, their replicas flip, die; heartbeats; PoolReady
+        dict(base, name="ready-max1", MaxForks=1, MaxConn=1, MaxErr=0 if q else 1, MaxHb=1,
+             MaxFlip=2 if q else 3, MaxCheck=0 if q else 1, pools=pools(lambda k: k[1] == 1)),
+        dict(base, name="ready-max2", MaxForks=2, MaxConn=2, MaxErr=0 if q else 1, MaxHb=1,
+             MaxFlip=2, pools=[220] if q else [120, 220, 20]),
+        # C: errors and kills
+        dict(base, name="errors-kill0", MaxForks=1, MaxConn=1, MaxErr=2, MaxHb=1, MaxFlip=1,
+             QueueLimit=2 if q else 3, McErrKill=0, pools=[110]),
+        dict(base, name="errors-kill1", MaxForks=1, MaxConn=1, MaxErr=3, MaxHb=1, MaxFlip=1,
+             QueueLimit=2 if q else 3, McErrKill=1, pools=[110]),
+    ]
+    if not q:
+        ms.append(dict(base, name="errors-2workers", MaxForks=2, MaxConn=2, MaxErr=2, MaxHb=1,
+                       MaxFlip=1, QueueLimit=2, McErrKill=0, pools=[220, 120]))
+    return ms, sum(len(v) for v in cl.values()), len(cl)
 
 
-def consts_of(m, flags, emit=False):
+def consts_of(m, variants, emit=False):
     c = {k: v for k, v in m.items() if k not in ("name", "pools")}
-    c.update(flags)
+    c["BootFault"] = True
     c["Pools"] = Raw("{" + ", ".join(str(p) for p in m["pools"]) + "}")
+    c["Variants"] = Raw(variants)
     c["Emit"] = emit
+    c["Memo"] = True
     return c
 
 
-def mc_verify(tier, rep, schema_file):
-    models, nsettings, nclasses = mc_models(tier)
-    jobs = [(m, label, flags) for m in models for label, flags in (("repaired", REP), ("code", CODE))]
-    tmo = 400 if tier == "quick" else 3000
+RE_PRED = re.compile(r'^<<"PRED", "(\w+)">>$', re.M)
 
-    def one(job):
-        m, label, flags = job
-        inv = HOLD + PREDICTED if label == "repaired" else HOLD
-        r = tlcrun.run_tlc("MCSupervisor", dict(spec="MCSpec", consts=consts_of(m, flags),
-                                                view="MCView", invariants=inv),
-                           workers=2, timeout=tmo, files={schema_file: "SupSchema.tla"},
-                           java_opts=JAVA)
-        pred = []
-        if label == "code" and not r["violated"] and not r["timed_out"] and not r["errors"]:
-            # which of the predicted formulas does the code variant break (first
-            # counterexample only; the full space was covered by the run above)
-            for f in PREDICTED:
-                r2 = tlcrun.run_tlc("MCSupervisor", dict(spec="MCSpec", consts=consts_of(m, flags),
-                                                         view="MCView", invariants=[f]),
-                                    workers=2, timeout=tmo, files={schema_file: "SupSchema.tla"},
-                                    java_opts=JAVA)
-                if r2["violated"]:
-                    pred.append(f)
-                elif r2["timed_out"] or r2["errors"]:
-                    r = r2
-                    break
-        return job, r, pred
+
+def mc_verify(tier, rep, schema_file):
+    """Every sub-model exhaustively, both variants in one TLC run (the variant is part of
+    the initial state).  HOLD must hold in both, PREDICTED in the repaired variant; what the
+    code variant breaks is noted (PredNote) as a prediction."""
+    models, nsettings, nclasses = mc_models(tier)
+    tmo = 500 if tier == "quick" else 3000
+
+    def one(m):
+        r = tlcrun.run_tlc("MCSupervisor", dict(spec="MCSpec", consts=consts_of(m, BOTH),
+                                                view="MCView",
+                                                invariants=HOLD + ["RepairedHolds", "PredNote"]),
+                           workers=2 if tier == "quick" else 4, timeout=tmo,
+                           files={schema_file: "SupSchema.tla"}, java_opts=JAVA)
+        return m, r, sorted(set(RE_PRED.findall(r["out"])))
 
     states = trans = 0
     runs, predicted = [], Counter()
-    with cf.ThreadPoolExecutor(max_workers=8) as ex:
-        for (m, label, flags), r, pred in ex.map(one, jobs):
+    with cf.ThreadPoolExecutor(max_workers=8 if tier == "quick" else 4) as ex:
+        for m, r, pred in ex.map(one, models):
             if r["timed_out"] or r["errors"] or (not r["completed"] and not r["violated"]):
-                raise Inconclusive("TLC failed on %s/%s: %s\n%s" % (m["name"], label, r["errors"][:3],
-                                                                   r["out"][-2500:]))
+                raise Inconclusive("TLC failed on %s: %s\n%s" % (m["name"], r["errors"][:3],
+                                                                 r["out"][-2500:]))
             if r["violated"]:
-                # HOLD formulas must hold in both variants, PREDICTED in the repaired one
-                raise Inconclusive("the %s specification violates %s in %s:\n%s" % (
-                    label, sorted(r["violated"]), m["name"], r["out"][-3000:]))
-            runs.append(dict(model=m["name"], variant=label, pools=len(m["pools"]),
+                # HOLD must hold in both variants, PREDICTED in the repaired one
+                raise Inconclusive("the specification violates %s in %s:\n%s" % (
+                    sorted(r["violated"]), m["name"], r["out"][-3000:]))
+            runs.append(dict(model=m["name"], pools=len(m["pools"]), variants=["code", "repaired"],
+                             budgets={k: v for k, v in m.items() if k not in ("name", "pools")},
                              states_generated=r["states"], distinct=r["distinct"],
-                             predicted_violations=pred, wall_s=round(r["wall"], 1)))
+                             code_variant_breaks=pred, wall_s=round(r["wall"], 1)))
             states += r["distinct"]
             trans += r["states"]
             for f in pred:
@@ -235,9 +236,9 @@ def mc_verify(tier, rep, schema_file):
     rep.coverage["transitions"] = trans
     rep.coverage["mc_pool_settings"] = dict(
         range="Min/Max/Warm 0..3", settings=nsettings, classes=nclasses,
-        explored="one representative per class (the specification depends on the settings only "
-                 "through min(Min,Max), Max and min(min(Min,Max)+Warm,Max))" if tier == "quick"
-        else "all settings")
+        explored="one representative per class: the specification reads the settings only through "
+                 "min(Min,Max), Max and min(min(Min,Max)+Warm,Max), settings of one class have "
+                 "isomorphic state graphs")
     rep.coverage["model_predictions_code_variant"] = dict(predicted)
     return models
 
@@ -252,18 +253,18 @@ def emit_models(tier):
     base = dict(MaxFail=0, MaxExpire=0, MaxConn=0, MaxErr=0, MaxHb=0, MaxCheck=0, MaxFlip=0,
                 Rounds=2, QueueLimit=2, McErrKill=0)
     ms = [
-        dict(base, name="emit-overfork", MaxForks=3, MaxFail=1, MaxExpire=1, MaxConn=1,
-             pools=[110, 11, 221, 220]),
-        dict(base, name="emit-ready", MaxForks=2, MaxConn=2, MaxHb=1, MaxFlip=2, MaxErr=1,
-             pools=[110, 220, 120]),
-        dict(base, name="emit-errors", MaxForks=1, MaxConn=1, MaxErr=3, MaxFlip=1, QueueLimit=3,
-             McErrKill=1, pools=[110]),
+        dict(base, name="emit-overfork1", MaxForks=2, MaxFail=1, MaxExpire=1, MaxConn=1, pools=[110]),
+        dict(base, name="emit-overfork2", MaxForks=3, pools=[220, 221]),
+        dict(base, name="emit-ready", MaxForks=1, MaxConn=1, MaxHb=1, MaxFlip=2, MaxErr=1,
+             pools=[110]),
+        dict(base, name="emit-errors", MaxForks=1, MaxConn=1, MaxErr=3, MaxFlip=1, McErrKill=1,
+             pools=[110]),
     ]
     return ms
 
 
 def emit_schedules(m, schema_file):
-    r = tlcrun.run_tlc("MCSupervisor", dict(spec="MCSpec", consts=consts_of(m, CODE, True),
+    r = tlcrun.run_tlc("MCSupervisor", dict(spec="MCSpec", consts=consts_of(m, CODE_ONLY, True),
                                             view="MCView", invariants=["EmitSched"]),
                        workers=1, timeout=900, files={schema_file: "SupSchema.tla"}, java_opts=JAVA)
     if r["timed_out"] or r["errors"]:
@@ -353,6 +354,14 @@ def family_cases(rng, tier):
                 s.append(op("ready", i))
         return s
 
+    # 0. the two canonical reproducers of the defects known at the pinned commit (DESIGN 8):
+    #    a fork parked across a NormalizingPool round; two errors queued together
+    out.append(case("canon-overfork", 1, 1, 0,
+                    [op("waitfork", 1, ms=5000), op("waitfork", 2, ms=4000), op("fork", 1, ok=True),
+                     op("fork", 2, ok=True), SETTLE]))
+    out.append(case("canon-errors-lost", 1, 1, 0,
+                    bring_up(1) + [SETTLE, op("pause"), op("err", 1, n=2), op("resume"), SETTLE,
+                                   op("err", 1, n=1), SETTLE, op("err", 1, n=1), SETTLE], errkill=1))
     # 1. plain start-up for every pool setting 0..3 (+ a few up to 6)
     for (mn, mx, wm) in rng_pools + big:
         want = min(min(mn, mx) + wm, mx)
@@ -466,17 +475,57 @@ def rand_cases(rng, n, gated):
 # ---------------------------------------------------------------------------
 # running the driver and validating the traces
 
-def run_driver(binary, cases, prefix, shards=16, workers=32):
-    inp = prefix + ".cases.jsonl"
-    with open(inp, "w") as f:
-        for c in cases:
-            f.write(json.dumps({k: v for k, v in c.items() if not k.startswith("_")}) + "\n")
-    rc, out = run([binary, "sup", "-in", inp, "-out", prefix, "-shards", str(shards),
-                   "-workers", str(workers)], timeout=3000)
-    if rc != 0:
-        raise Inconclusive("sup driver failed: " + out[-2000:])
-    files = [f for f in sorted(glob.glob(prefix + ".*.ndjson")) if os.path.getsize(f) > 0]
-    outcomes = {o["label"]: o for o in json.load(open(prefix + ".outcomes.json"))}
+def run_driver(binary, cases, prefix, shards=16, workers=32, procs=4):
+    """Runs the cases in `procs` driver processes.  A driver process that dies (a panic on
+    a goroutine of the library kills the whole process; e.g. rpc.Client.Stop racing with a
+    disposal) loses only its own cases: they are re-run in smaller processes, twice at
+    most; a case that still cannot be finished is inconclusive."""
+    crashes = []
+
+    def launch(chunk, tag, nshards, nworkers):
+        inp = "%s.%s.cases.jsonl" % (prefix, tag)
+        with open(inp, "w") as f:
+            for c in chunk:
+                f.write(json.dumps({k: v for k, v in c.items() if not k.startswith("_")}) + "\n")
+        rc, out = run([binary, "sup", "-in", inp, "-out", "%s.%s" % (prefix, tag), "-shards",
+                       str(nshards), "-workers", str(nworkers)], timeout=3000)
+        return rc, out, tag
+
+    def go(chunks, depth):
+        jobs = []
+        with cf.ThreadPoolExecutor(max_workers=max(1, len(chunks))) as ex:
+            futs = [ex.submit(launch, ch, "d%dp%d" % (depth, i), max(1, shards // max(1, len(chunks))),
+                              max(1, workers // max(1, len(chunks)))) for i, ch in enumerate(chunks)]
+            res = [f.result() for f in futs]
+        files, outs, failed = [], [], []
+        for (rc, out, tag), ch in zip(res, chunks):
+            if rc != 0:
+                crashes.append(out[-600:])
+                for f in glob.glob("%s.%s.*" % (prefix, tag)):
+                    if not f.endswith(".cases.jsonl"):
+                        os.remove(f)
+                failed.append(ch)
+                continue
+            files += [f for f in sorted(glob.glob("%s.%s.*.ndjson" % (prefix, tag)))
+                      if os.path.getsize(f) > 0]
+            outs += json.load(open("%s.%s.outcomes.json" % (prefix, tag)))
+        return files, outs, failed
+
+    n = max(1, min(procs, len(cases)))
+    files, outs, failed = go([cases[i::n] for i in range(n)], 0)
+    depth = 1
+    while failed:
+        if depth > 2:
+            raise Inconclusive("the sup driver died %d times, last:\n%s" % (len(crashes), crashes[-1]))
+        todo = [c for ch in failed for c in ch]
+        k = max(2, min(8, len(todo)))
+        f2, o2, failed = go([todo[i::k] for i in range(k)], depth)
+        files += f2
+        outs += o2
+        depth += 1
+    outcomes = {o["label"]: o for o in outs}
+    outcomes["_driver_crashes"] = dict(label="_driver_crashes", n=len(crashes),
+                                       last=crashes[-1][-300:] if crashes else "")
     stuck = [o for o in outcomes.values() if o.get("stuck")]
     if stuck:
         raise Inconclusive("driver could not finish %d cases, e.g. %s: %s" % (
@@ -484,8 +533,8 @@ def run_driver(binary, cases, prefix, shards=16, workers=32):
     return files, outcomes
 
 
-TRACE_CONSTS = dict(CODE, MaxForks=0, MaxFail=0, MaxExpire=0, MaxConn=0, Rounds=5, MaxErr=0, MaxHb=0,
-                    MaxCheck=0, MaxFlip=0, QueueLimit=0, Emit=False)
+TRACE_CONSTS = dict(BootFault=True, MaxForks=0, MaxFail=0, MaxExpire=0, MaxConn=0, Rounds=5, MaxErr=0, MaxHb=0,
+                    MaxCheck=0, MaxFlip=0, QueueLimit=0, Emit=False, Memo=False)
 
 
 def validate(files, schema_file):
@@ -568,7 +617,12 @@ def schedule_of(lines, upto=None):
 
 def cause_of(name, line, lines):
     if name == "WithinMax":
-        return "fork-gate-ignores-forks-in-flight"
+        # every fork was decided with len(workers) < Max, and still the map outgrew Max:
+        # the forks in flight were not counted.  A fork decided at Max is another defect.
+        at_max = any(x["ev"] == "tx" and x["t0"] >= x["max"] and
+                     (["state", "ForkingWorker"] in x["hs"] or ["state", "ForkWorker"] in x["hs"])
+                     for x in lines)
+        return "fork-decided-at-max" if at_max else "fork-gate-ignores-forks-in-flight"
     if name == "KillRequestedDelivered":
         lost = any(x["ev"] == "tx" and "ErrWorker" in x["called"] and x["op"] == "add" and x["acc"]
                    and x["lk"] and not x["killerr"] and ["state", "ErrWorker"] not in x["hs"]
@@ -591,12 +645,12 @@ def report_violations(rep, viol, files, cases_by_label):
             cause = cause_of(name, line, lines)
             key = (name, cause)
             sch = schedule_of(lines, line if line["ev"] == "tx" else None)
-            cand = (len(sch), sch, label, line, init)
-            if key not in classes or cand[:2] < classes[key][:2]:
+            cand = (0 if label.startswith("canon-") else 1, len(sch), sch, label, line, init)
+            if key not in classes or cand[:3] < classes[key][:3]:
                 classes[key] = cand
     for key in sorted(classes):
         name, cause = key
-        n, sch, label, line, init = classes[key]
+        _, n, sch, label, line, init = classes[key]
         sig = dict(formula=name, cause=cause)
         cs = {k: v for k, v in cases_by_label[label].items() if not k.startswith("_")}
         what = dict(WithinMax="len(workers)=%s > Max=%s" % (line.get("t"), line.get("max")),
@@ -667,8 +721,10 @@ def check(tier):
             # B3: TLC's witness schedules
             tcases, gen = [], []
             per_tag = 6 if tier == "quick" else 40
-            for m in emit_models(tier):
-                scheds, dist, gens = emit_schedules(m, schema_file)
+            ems = emit_models(tier)
+            with cf.ThreadPoolExecutor(max_workers=len(ems)) as ex2:
+                emitted = list(ex2.map(lambda m: emit_schedules(m, schema_file), ems))
+            for m, (scheds, dist, gens) in zip(ems, emitted):
                 pick, cnt = [], Counter()
                 r2 = random.Random(sd * 7919 + len(gen))
                 pools = defaultdict(list)
@@ -693,9 +749,21 @@ def check(tier):
             cases = tcases + fcases + rcases
             files, outcomes = run_driver(binary, cases, os.path.join(d, "run"))
             viol, drift, stat = validate(files, schema_file)
-            fut_mc.result()
+            mc_failure = None
+            try:
+                fut_mc.result()
+            except Inconclusive as e:
+                mc_failure = e
 
         finals, classes, keys = analyse(rep, files, viol, drift, stat, cases, outcomes)
+        if mc_failure is not None:
+            # a failed design half is inconclusive -- unless the real code already shows a
+            # violation (e.g. an edited schema breaks a formula in the model AND in the traces)
+            if not rep.violations:
+                raise mc_failure
+            rep.notes.append("design half failed: " + str(mc_failure)[:300])
+            rep.coverage.setdefault("states", 1)
+            rep.coverage.setdefault("transitions", 1)
 
         # were TLC's witnesses realised on the real supervisor?
         realised = Counter()
@@ -721,9 +789,13 @@ def check(tier):
                     errlost=any("ErrWorker" in x["called"] and x["op"] == "add" and x["acc"] and x["lk"]
                                 and ["state", "ErrWorker"] not in x["hs"] for x in txs))[t]
                 realised[t] += 1 if hit else 0
+        crashes = outcomes.pop("_driver_crashes")
         miss = sum(1 for o in outcomes.values() if o.get("miss"))
+        if crashes["n"]:
+            rep.notes.append("a driver process died %d time(s) on a library goroutine panic; its cases "
+                             "were re-run: %s" % (crashes["n"], crashes["last"].strip()[:200]))
         samples = []
-        for key, (n, sch, label, line, init) in sorted(classes.items())[:6]:
+        for key, (_, n, sch, label, line, init) in sorted(classes.items())[:6]:
             samples.append(dict(formula=key[0], cause=key[1], case=label,
                                 pool=[init["min"], init["max"], init["warm"], init["errkill"]],
                                 schedule=sch, observed={k: line.get(k) for k in
@@ -761,7 +833,8 @@ def check(tier):
                  "transition; distinct = distinct (settings, order of pool-relevant supervisor "
                  "transitions with their outcome); non-trivial = >= 2 forks in flight at once, or a "
                  "gate refused, or an error / kill happened",
-            samples=samples, exhaustive=False, spec_flags=CODE)
+            samples=samples, exhaustive=False,
+            spec_variant_validated="code (cfg.gate = FALSE, ErrWorker as in the tree's schema)")
         rep.assumptions += [
             "TLC explores the stated sub-models (fork attempts, errors, flips, rounds bounded); "
             "pool settings beyond 0..3 are covered by recorded executions only",
@@ -786,7 +859,8 @@ def replay(path):
         cs = obj["case"]
         n = 1 if cs.get("gated") else 20
         cases = [dict(cs, label="%s#%d" % (cs["label"], i)) for i in range(n)]
-        files, outcomes = run_driver(binary, cases, os.path.join(d, "replay"), shards=1)
+        files, outcomes = run_driver(binary, cases, os.path.join(d, "replay"), shards=1, procs=1)
+        outcomes.pop("_driver_crashes")
         viol, drift, stat = validate(files, schema_file)
         hit = 0
         for label, items in by_case(files, [v for v in viol if v[2] == obj["formula"]]).items():
